@@ -35,6 +35,18 @@ from ref import tlv8 as reftlv
 
 PROP = "C06"
 LEAN_MODULE = "Props.C06"
+
+
+def extract(ctx):
+    """regenerate the protocol-constant table from the source under check"""
+    import sys as _sys
+
+    from common import LEAN, REPO, VERIF
+
+    _sys.path.insert(0, str(VERIF / "extract"))
+    import handler_consts
+
+    handler_consts.write(REPO, LEAN)
 TRUSTED = [
     "Lean 4.33 kernel; axioms propext, Classical.choice, Quot.sound only (audited by #print axioms)",
     "hand-written model lean/HapModel/PairState.lean of State.add/remove/is_admin and handle_pairings "
